@@ -7,6 +7,7 @@ A case is {"fam": family, "lib": GDSII library (gdscommon shape, strings as byte
 The model variant (Raw/RawGds.v [cfg]) is read from the SOURCE of the importer on every run ([model_cfg])."""
 import json, os, re, copy, time
 from vlib import *
+from props.kernelcommon import kernel_tie_leg
 from props import gdscommon as G
 
 HDR = ("From Coq Require Import ZArith List String Bool.\nImport ListNotations.\n"
@@ -797,6 +798,7 @@ def impl_detail(r, limit=1200):
 def run(chk, replay=None):
     t0 = time.time()
     chk.proof_leg(MODEL_TARGETS, "Properties/C06.v", PROOF_FILES + ["Raw/RawFlatten_proofs.v"], "Properties.C06")
+    kernel_tie_leg(chk, "transform")
     chk.cov.setdefault("timing_s", {})["proof_leg"] = round(time.time() - t0, 1)
     chk.assumptions += [
         "isize/usize are 64 bit; the harness is built with overflow checks (an integer overflow is a panic)",
